@@ -35,7 +35,7 @@ from pexpect import fdpexpect, socket_pexpect
 from pexpect.exceptions import EOF, TIMEOUT, ExceptionPexpect
 
 PROPERTY = 'C10'
-RULE = ('Hypothesis-generated operation sequences (<= 12 steps) x child disposition {normal, ignores HUP+INT, stopped, '
+RULE = ('Hypothesis-generated operation sequences (<= 12 steps) x child disposition {normal, ignores HUP+INT, ignores HUP only, stopped, '
         'stopped+ignoring, already exited, exits mid-sequence} on pty children, and the fd/socket rule subsets on '
         'fdspawn/SocketSpawn (a quarter of the fdspawn objects own descriptor number 0); invariants checked against /proc after every step; decoy socketpairs (pre-loaded with '
         'sentinel bytes) grab the released descriptor number before I/O is retried.  Non-trivial: >= 3 lifecycle '
@@ -152,7 +152,8 @@ class Decoys(object):
 # ---------------------------------------------------------------------------
 # pty children
 
-DISPOSITIONS = ['normal', 'normal', 'ignore', 'ignore+term', 'stopped', 'stopped+ignore', 'exited', 'exits-soon']
+# 'hup-deaf': ignores the hang-up only - the second rung of the signal ladder (SIGINT) is the one that ends it
+DISPOSITIONS = ['normal', 'normal', 'ignore', 'ignore+term', 'stopped', 'stopped+ignore', 'exited', 'exits-soon', 'hup-deaf']
 OPS = ['isalive', 'isalive', 'wait', 'kill-TERM', 'kill-KILL', 'kill-0', 'kill-CONT', 'terminate', 'terminate-force',
        'close', 'close', 'close-noforce', 'sendeof', 'expect-eof', 'send', 'read', 'with-exc', 'del', 'grab-fds']
 
@@ -171,6 +172,8 @@ def spawn_child(disp, use_poll):
         child = pexpect.spawn('/bin/sh', ['-c', "trap '' HUP INT; exec sleep 300"], timeout=5, use_poll=use_poll)
     elif disp == 'ignore+term':
         child = pexpect.spawn('/bin/sh', ['-c', "trap '' HUP INT TERM QUIT; exec sleep 300"], timeout=5, use_poll=use_poll)
+    elif disp == 'hup-deaf':
+        child = pexpect.spawn('/bin/sh', ['-c', "trap '' HUP; exec sleep 300"], timeout=5, use_poll=use_poll)
     elif disp == 'exited':
         child = pexpect.spawn('/bin/true', timeout=5, use_poll=use_poll)
     else:
@@ -271,7 +274,7 @@ def _check_pty(case, col, watch):
     n_life = 0
     raised_any = False        # an exception raised by the object (its traceback may keep the object in a cycle)
     try:
-        if disp in ('ignore', 'stopped+ignore', 'ignore+term'):
+        if disp in ('ignore', 'stopped+ignore', 'ignore+term', 'hup-deaf'):
             time.sleep(0.05)          # let sh install the trap and exec cat
         if disp.startswith('stopped'):
             os.kill(pid, signal.SIGSTOP)
